@@ -1,7 +1,7 @@
 #!/bin/bash
 # usage: confirm_mutant.sh <ID>   -- re-verifies a seeded defect in its scratch worktree /tmp/wt/<ID>
 # (patch applied there by the sub-agent). Writes /tmp/mut/<ID>/confirm.log and confirm.json
-id=$1; wt=/tmp/wt/$id; out=/tmp/mut/$id
+id=$1; wt=/tmp/wt/$id; out=/tmp/mut/$id; FEATS=${FEATS:-}
 cd $wt || exit 2
 export CARGO_NET_OFFLINE=true
 demo=tests/verif_demo_$id.rs
@@ -11,14 +11,14 @@ echo "== state"; git status --short | head
 # make sure patch is applied
 git diff --quiet -- src components && git apply $out/patch.diff
 echo "== demo with change (expect FAIL)"
-cargo test --offline --test verif_demo_$id 2>&1 | tail -5; d1=${PIPESTATUS[0]}
+cargo test --offline $FEATS --test verif_demo_$id -- --test-threads=1 2>&1 | tail -5; d1=${PIPESTATUS[0]}
 echo "== suite with change, demo moved away (expect PASS)"
 mv $demo /tmp/mut/$id/_demo_aside.rs
 cargo test --workspace --offline --no-fail-fast 2>&1 | grep -E "^test result|FAILED|failed" | sort | uniq -c | sort -rn | head -8; s1=${PIPESTATUS[0]}
 mv /tmp/mut/$id/_demo_aside.rs $demo
 echo "== demo without change (expect PASS)"
 git apply -R $out/patch.diff
-cargo test --offline --test verif_demo_$id 2>&1 | tail -5; d0=${PIPESTATUS[0]}
+cargo test --offline $FEATS --test verif_demo_$id -- --test-threads=1 2>&1 | tail -5; d0=${PIPESTATUS[0]}
 git apply $out/patch.diff
 echo "RESULT demo_with=$d1 suite_with=$s1 demo_without=$d0"
 echo "{\"demo_with_change_rc\": $d1, \"suite_with_change_rc\": $s1, \"demo_without_change_rc\": $d0}" > $out/confirm.json
